@@ -131,3 +131,13 @@ func IterPaths(h *ssa.BasicBlock, stop func(*ssa.BasicBlock) bool, max int) (pat
 	walk(h)
 	return
 }
+
+// LoopHeaderOf2: the header of the loop enclosing the loop headed by h (nil if none).
+func LoopHeaderOf2(h *ssa.BasicBlock) *ssa.BasicBlock {
+	for d := h.Idom(); d != nil; d = d.Idom() {
+		if len(Latches(d)) > 0 && LoopBlocks(d)[h] {
+			return d
+		}
+	}
+	return nil
+}
